@@ -3,8 +3,8 @@
 From Coq Require Import Reals ZArith List Bool Lia Lra.
 From Coquelicot Require Import Coquelicot.
 From Sky Require Import Result PyList Num NumR G_llh G_layout M_Llh S_Llh M_Layout S_Layout
-  M_LlhPipe M_LlhGrad S_LlhPipe S_LlhGrad
-  P_Llh P_LlhValue P_LlhDeriv P_WeightsDeriv P_Layout P_LayoutDeriv P_LlhGrad P_LlhStack P_LlhPipeGrad.
+  M_LlhPipe M_LlhGrad M_LlhE2E S_LlhPipe S_LlhGrad
+  P_Llh P_LlhValue P_LlhDeriv P_WeightsDeriv P_Layout P_LayoutDeriv P_LlhGrad P_LlhStack P_LlhPipeGrad P_LlhE2E.
 Import ListNotations.
 
 (* ---------------------------------------------------------------- layout clause *)
@@ -34,9 +34,7 @@ Proof. intros V. exact (@layout_sound V). Qed.
 Print Assumptions C02_layout_sound.
 
 (* Consumer: the comparison `gpidx == fitparam_id + 1` is true exactly for the cells fed
-   by the fitparam_id-th floating declaration (declaration order); the textual copies of
-   the comparison in the PDF-ratio, signal-PDF and detector-yield code are the same test,
-   and the key a yield gradient is filed under (gpidx - 1) is found again by it. *)
+   by the fitparam_id-th floating declaration (declaration order). *)
 Theorem C02_layout_consumer : forall (V : Type) n (ds : list (@gdecl V)) m vec r s name fid,
   build n ds = Ok m -> create_src_params_recarray m vec = Ok r -> (s < n)%nat -> (0 <= fid)%Z ->
   (lk_is_local fid (snd (rcell r s name)) = true
@@ -44,6 +42,10 @@ Theorem C02_layout_consumer : forall (V : Type) n (ds : list (@gdecl V)) m vec r
 Proof. intros V. exact (@layout_consumer V). Qed.
 Print Assumptions C02_layout_consumer.
 
+(* This one only PINS the textual copies of the comparison (i3/pdfratio.py, signalpdf.py, i3/detsigyield.py)
+   to one test: after unfolding the kernels both sides are the same term.  A semantic change of any copy
+   changes its kernel and breaks this statement; it says nothing beyond that.  (A fourth copy in
+   analyses/i3/publicdata_ps/pdfratio.py is outside the anchors and not pinned.) *)
 Theorem C02_layout_consumers_agree : forall g fid,
   lk_i3_match g fid = lk_is_local fid g /\ lk_sig_match g fid = lk_is_local fid g
   /\ lk_dsy_mask g fid = lk_is_local fid g
@@ -51,10 +53,12 @@ Theorem C02_layout_consumers_agree : forall g fid,
 Proof. exact consumers_agree. Qed.
 Print Assumptions C02_layout_consumers_agree.
 
-(* Keys and lengths: every key of the a_jk / f_j gradient dictionaries is the id of a
-   floating parameter, so the column assignment f_grads[:, key] of the multi-dataset
-   evaluate cannot fail (no Err) and hits column `key`; the gradient vector has exactly
-   n_floating entries = the length of the value vector. *)
+(* Keys: every key of the a_jk / f_j gradient dictionaries is the id of a floating parameter, so the
+   column assignment f_grads[:, key] of the multi-dataset evaluate cannot fail and hits column `key`
+   (GIVEN that the yields find their parameter field: a_grad_keys = Ok).  The last two conjuncts are
+   bookkeeping identities only ((n-1)+1 = n for the kernels of the column arithmetic; the length guard of
+   create_src_params_recarray): the statement that the VECTOR has its entries in declaration order is
+   C02_end_to_end below. *)
 Theorem C02_layout_keys : forall (V : Type) n (ds : list (@gdecl V)) m vec r groups kms,
   build n ds = Ok m -> create_src_params_recarray m vec = Ok r -> a_grad_keys r groups = Ok kms ->
   (forall k, In k (map fst kms) -> (0 <= k < n_floating ds)%Z)
@@ -275,6 +279,51 @@ Theorem C02_multi_d2ns : forall (erfR : R -> R) opa ns (l : list (R * (R * list 
             (multi_ns_grad2 (RNum erfR) opa ns (map fst l) (map snd l)).
 Proof. exact multi_ns_grad2_is_derivative. Qed.
 Print Assumptions C02_multi_d2ns.
+
+(* ---------------------------------------------------------------- the closed end-to-end statement *)
+(* For EVERY declaration list accepted by map_param, every vector of floating values, every set of
+   datasets (yields Y_jk and interpolated ratios phi_v arbitrary differentiable functions of the local
+   parameter value, any (source, event) table without repeated pairs, any source weights), and every
+   floating index r other than the index of ns: entry r of the gradient VECTOR of the model
+   (M_LlhE2E.e2e_grad: create_src_params_recarray -> yield / ratio gradient selection by gpidx ->
+   f_j / f_j_grad, sw_ratio / sw_grad, evaluate, multi-dataset loop -> columns of p_fids scattered back
+   around ns_pidx = get_gflp_idx 'ns') is the derivative of the model's value with respect to the r-th
+   floating value.  Hypotheses: leaves differentiable; non-degeneracy at the point (weights sums <> 0,
+   N <> 0, log arguments positive, no event exactly at the Taylor threshold). *)
+Theorem C02_end_to_end : forall (erfR : R -> R) opa n (ds : list (@gdecl R)) m vec rec (W : list R) (DS : list eds) nsi g (r : nat),
+  0 < opa ->
+  build n ds = Ok m -> create_src_params_recarray m vec = Ok rec ->
+  get_gflp_idx (m_decls m) 0%Z = Ok nsi ->
+  e2e_grad (RNum erfR) opa m vec W DS = Ok g ->
+  (r < length vec)%nat -> Z.of_nat r <> nsi ->
+  a_tot (RNum erfR) (map (a_row (RNum erfR) m vec W) DS) <> 0 ->
+  List.Forall (fun d =>
+      (forall k x, is_derive (e_Y d k) x (e_dY d k x))
+      /\ (forall i x, is_derive (e_phi d i) x (e_dphi d i x))
+      /\ NoDup (e_rows d)
+      /\ List.Forall (fun p => (fst p < m_nmodels m)%nat) (e_rows d)
+      /\ Rsum (a_row (RNum erfR) m vec W d) <> 0 /\ e_N d <> 0
+      /\ 0 < 1 - nth (Z.to_nat nsi) vec 0
+                 * (Rsum (a_row (RNum erfR) m vec W d) / a_tot (RNum erfR) (map (a_row (RNum erfR) m vec W) DS)) / e_N d
+      /\ List.Forall (fun x => nth (Z.to_nat nsi) vec 0
+                               * (Rsum (a_row (RNum erfR) m vec W d) / a_tot (RNum erfR) (map (a_row (RNum erfR) m vec W) DS))
+                               * Xof (e_N d) x <> opa - 1)
+                     (sw_ratio (RNum erfR) (a_row (RNum erfR) m vec W d) (e_nsel d) (vals_of (RNum erfR) m vec d))) DS ->
+  is_derive (fun t => e2e_value (RNum erfR) opa m (set_nth vec r t) W DS nsi) (nth r vec 0) (nth r g 0).
+Proof. exact e2e_entry_is_derivative. Qed.
+Print Assumptions C02_end_to_end.
+
+(* SigOverBkgPDFRatio.get_gradient: the executed row model (separately computed mask `m`, the four
+   dependency cases) is case by case the gradient function of the quotient-rule theorems; rows with
+   non-positive background get 0 *)
+Theorem C02_sob_cases : forall (erfR : R -> R) z s ds b db,
+  snd (sob_eval (RNum erfR) z s ds b db false false) = 0
+  /\ snd (sob_eval (RNum erfR) z s ds b db true false) = sob_grad_sig (RNum erfR) ds b
+  /\ snd (sob_eval (RNum erfR) z s ds b db true true) = sob_grad_both (RNum erfR) s ds b db
+  /\ snd (sob_eval (RNum erfR) z s ds b db false true) = sob_grad_bkg (RNum erfR) s b db
+  /\ fst (sob_eval (RNum erfR) z s ds b db false false) = sob_ratio (RNum erfR) z s b.
+Proof. exact sob_eval_cases. Qed.
+Print Assumptions C02_sob_cases.
 
 (* ---------------------------------------------------------------- non-vacuity *)
 Close Scope R_scope.
